@@ -25,7 +25,7 @@ func init() {
 		Rule:        "Container puts with ContainerFee and ContainerAliasFee from {0,1,7,10^6} (changed by setConfig between puts), committees of 1/4/7, owner balance driven to {total-1,total,total+1,0,3*total,2^40} before each put, named and unnamed, owners who are Alphabet nodes themselves, repeated puts until the balance runs out; the multiset of TransferX events with container-fee details and the balance deltas from the Balance storage diff must equal N transfers of the fee; refusals must leave an empty diff. distinct = (operation, signer class, reason/outcome, liveness, fee, committee size).",
 		Assumptions: tb,
 		Batches:     tier(192, 2048), Chunk: 8,
-		Floors: []string{"paid-put:N1", "paid-put:N4", "paid-put:N7", "paid-put:named", "paid-put:unnamed", "paid-put:fee0", "fee-changed-between-puts", "refused-at-total-1", "accepted-at-total", "put-refused:insufficient-balance", "puts-until-balance-runs-out", "paid-put:named-reusing-a-freed-domain"},
+		Floors: []string{"paid-put:N1", "paid-put:N4", "paid-put:N7", "paid-put:named", "paid-put:unnamed", "paid-put:fee0", "fee-changed-between-puts", "refused-at-total-1", "accepted-at-total", "put-refused:insufficient-balance", "puts-until-balance-runs-out", "paid-put:named-reusing-a-freed-domain", "putNamed-without-a-name-with-a-zone"},
 		Run:    runC05,
 	})
 	runner.Register(&runner.Check{
@@ -33,7 +33,7 @@ func init() {
 		Rule:        "Roster histories (vectors of 5..300 keys in two batches so the 2-byte counter crosses 127/128/255/256, 1-4 vectors, re-commits, empty commits, non-contiguous vector index, malformed ids/keys, unauthorised callers) compared in order through nodes()/replicasNumbers() and a raw scan of the pending prefix; signature matrices for REP 1..4 assembled from {honest, honest+noise, honest+junk lengths, one member repeated, malleated (r,n-s) twin, one short + duplicate, non-members, members of another vector, another message, short vector, missing vector} judged against an independent crypto/ecdsa oracle counting distinct members per vector; submitObjectPut with valid/expired/wrong-network meta maps. distinct = (operation, class, REP vector / size class, outcome).",
 		Assumptions: append(tb, "positive control (must accept) only for matrices whose entries are all 64 bytes long"),
 		Batches:     tier(96, 768), Chunk: 4,
-		Floors: []string{"roster-crossing-256", "second-batch-for-a-vector", "re-commit", "empty-commit", "commit-with-null-replicas-and-pending-roster", "accepted-honest-matrix", "refused:duplicate-member", "refused:non-member", "refused:other-vector-member", "defect-in-one-vector-only", "signatures-of-an-earlier-vector's-members", "refused:other-message", "refused:short-vector", "refused:missing-vector", "refused:malleated-twin", "submitObjectPut-ok", "submitObjectPut-refused"},
+		Floors: []string{"roster-crossing-256", "second-batch-for-a-vector", "re-commit", "empty-commit", "commit-with-null-replicas-and-pending-roster", "accepted-honest-matrix", "refused:duplicate-member", "refused:non-member", "refused:other-vector-member", "defect-in-one-vector-only", "roster-lists-a-key-twice", "signatures-of-an-earlier-vector's-members", "refused:other-message", "refused:short-vector", "refused:missing-vector", "refused:malleated-twin", "submitObjectPut-ok", "submitObjectPut-refused"},
 		Run:    runC14,
 	})
 }
